@@ -155,6 +155,8 @@ type ScriptedValidator struct {
 	Legacy  int // calls through the deprecated interface
 	// Gate, if set, is called at the start of every consultation
 	Gate func()
+	// Stall: every consultation takes this long
+	Stall time.Duration
 	// AnswerFor, if set, decides the result vector of a consultation from its options (nil = the scripted Results)
 	AnswerFor func(opts revocation.ValidateContextOptions) []revresult.Result
 }
@@ -166,6 +168,9 @@ func (v *ScriptedValidator) answer(chain []*x509.Certificate) ([]*revresult.Cert
 // answerWith: results is this consultation's vector (its own: consultations may overlap).
 func (v *ScriptedValidator) answerWith(chain []*x509.Certificate, results []revresult.Result) ([]*revresult.CertRevocationResult, error) {
 	d := rt.Point(rt.Op{Kind: "revocation.validate"})
+	if v.Stall > 0 {
+		rt.Sleep(v.Stall) // a responder that takes its time (simulated clock)
+	}
 	v.Faulted = append(v.Faulted, d.Err != nil)
 	if d.Err != nil {
 		return nil, fmt.Errorf("simulated: revocation service unreachable: %w", d.Err)
